@@ -382,6 +382,7 @@ fn strat_tag(s: &Strat) -> &'static str {
         Strat::HeapLimit { .. } => "heap-limit",
         Strat::PathNoMmap => "path",
         Strat::PathMmap => "mmap",
+        Strat::PathFifo => "fifo",
     }
 }
 
